@@ -334,7 +334,7 @@ class WaveSpectrum(DatasetWrapper):
             dataset[str(name)] = x
 
         cls = type(self)
-        return cls(xarray.Dataset(dataset))
+        return cls(dataset)
 
     def sum(self, dim: str, skipna: bool = False):
         """
